@@ -155,6 +155,22 @@ Qed.
 
 End Order.
 
+(* the hypothesis is an invariant of a sequence of invalidations: a closed map stays closed *)
+Theorem invalidate_keeps_closed fuel g n l incl g' :
+  owner_ok (g_edges g) -> closed_cells (g_edges g) (g_rel g) (g_map g) ->
+  invalidate_deps fuel g n (Rows l) incl = Some g' ->
+  closed_cells (g_edges g) (g_rel g) (g_map g').
+Proof.
+  intros Ho Hcl H d e r Hd He Hn Hr.
+  destruct (invalidate_deps_spec _ _ _ _ _ _ Ho H) as (Hm & _ & Hc).
+  destruct (in_map (g_map g) d) eqn:X.
+  - apply Hm. apply (Hcl d e r X He Hn Hr).
+  - destruct (Hc d Hd X) as (y & Hy & Hp & Hcb).
+    destruct (RBi_rows _ _ _ _ _ _ _ Hp) as [l2 ->].
+    apply (Hcb e He Hn). cbn [snd]. rewrite affected_rows. apply in_rowset_rows.
+    apply aff_l_In. exists (snd d). split; auto. apply in_rowset_rows. exact Hy.
+Qed.
+
 (* visiting the in-edges of a node in another order (or the same set of edges stored in another
    order) gives the same recompute_map *)
 Theorem invalidate_order_irrelevant E1 E2 R M N1 N2 n0 l0 incl f1 f2 g1 g2 :
